@@ -30,6 +30,9 @@
 #include <orc/orcprogram.h>
 #include <orc/orcutils-private.h>
 #include <orc/orcdebug.h>
+#ifdef ORC_VERIF_HOOKS
+#include <orc/orcverif.h>
+#endif
 
 
 #define SIZE 65536
@@ -161,6 +164,9 @@ orc_code_region_get_free_chunk (int size)
   region = orc_code_region_new ();
   if (!region)
     return NULL;
+#ifdef ORC_VERIF_HOOKS
+  ORC_VERIF_POINT (ORC_VERIF_PT_CODEMEM_REGION_NEW);
+#endif
 
   orc_code_regions = realloc (orc_code_regions,
       sizeof(void *)*(orc_code_n_regions+1));
@@ -189,8 +195,14 @@ orc_code_allocate_codemem (OrcCode *code, int size)
   int aligned_size =
       (MAX(1, size) + _orc_codemem_alignment) & (~_orc_codemem_alignment);
 
+#ifdef ORC_VERIF_HOOKS
+  ORC_VERIF_POINT (ORC_VERIF_PT_CODEMEM_ALLOC_ENTER);
+#endif
   orc_global_mutex_lock ();
   chunk = orc_code_region_get_free_chunk (aligned_size);
+#ifdef ORC_VERIF_HOOKS
+  ORC_VERIF_POINT (ORC_VERIF_PT_CODEMEM_SEARCHED);
+#endif
   if (!chunk) {
     orc_global_mutex_unlock ();
 
@@ -202,9 +214,15 @@ orc_code_allocate_codemem (OrcCode *code, int size)
 
   if (chunk->size > aligned_size) {
     orc_code_chunk_split (chunk, aligned_size);
+#ifdef ORC_VERIF_HOOKS
+    ORC_VERIF_POINT (ORC_VERIF_PT_CODEMEM_SPLIT);
+#endif
   }
 
   chunk->used = TRUE;
+#ifdef ORC_VERIF_HOOKS
+  ORC_VERIF_POINT (ORC_VERIF_PT_CODEMEM_MARKED);
+#endif
 
   code->chunk = chunk;
   code->code = ORC_PTR_OFFSET(region->write_ptr, chunk->offset);
@@ -223,11 +241,20 @@ orc_code_chunk_free (OrcCodeChunk *chunk)
     return;
   }
 
+#ifdef ORC_VERIF_HOOKS
+  ORC_VERIF_POINT (ORC_VERIF_PT_CODEMEM_FREE_ENTER);
+#endif
   orc_global_mutex_lock ();
   chunk->used = FALSE;
+#ifdef ORC_VERIF_HOOKS
+  ORC_VERIF_POINT (ORC_VERIF_PT_CODEMEM_FREE_MARKED);
+#endif
   if (chunk->next && !chunk->next->used) {
     orc_code_chunk_merge (chunk);
   }
+#ifdef ORC_VERIF_HOOKS
+  ORC_VERIF_POINT (ORC_VERIF_PT_CODEMEM_FREE_MERGED_NEXT);
+#endif
   if (chunk->prev && !chunk->prev->used) {
     orc_code_chunk_merge (chunk->prev);
   }
@@ -402,3 +429,22 @@ orc_code_region_allocate_codemem (OrcCodeRegion *region)
 }
 #endif
 
+
+#ifdef ORC_VERIF_HOOKS
+/* Read-only walk over every code region and chunk (verification harness).
+ * The caller is responsible for quiescence. */
+void
+orc_verif_codemem_walk (OrcVerifCodememCallback cb, void *user)
+{
+  int i;
+  OrcCodeChunk *chunk;
+
+  for (i = 0; i < orc_code_n_regions; i++) {
+    OrcCodeRegion *region = orc_code_regions[i];
+    for (chunk = region->chunks; chunk; chunk = chunk->next) {
+      cb (user, i, region->write_ptr, region->exec_ptr, region->size,
+          chunk->offset, chunk->size, chunk->used);
+    }
+  }
+}
+#endif
